@@ -39,7 +39,7 @@ import (
 // Addr is a symbolic address: a base address, or the CREATE / CREATE2 address
 // derived from another one.
 type Addr struct {
-	K     string `json:"k"` // "b", "c", "c2"
+	K     string `json:"k"` // "b", "c", "c2", "p" (precompile n: only ever a beneficiary, never a call target)
 	N     uint64 `json:"n,omitempty"`
 	S     *Addr  `json:"s,omitempty"`
 	Nonce uint64 `json:"nonce,omitempty"`
@@ -144,6 +144,8 @@ func (cp *compiler) real(a *Addr) common.Address {
 	switch a.K {
 	case "b":
 		return baseAddr(a.N)
+	case "p":
+		return common.BytesToAddress([]byte{byte(a.N)})
 	case "c":
 		return crypto.CreateAddress(cp.real(a.S), a.Nonce)
 	case "c2":
@@ -651,6 +653,12 @@ func (t *tracer) CaptureState(evm *vm.EVM, pc uint64, op vm.OpCode, gas, cost ui
 	case op == vm.SELFDESTRUCT:
 		self := contract.Address()
 		ben := common.BigToAddress(stack.Back(0))
+		if t.e.db.HasSuicided(self) {
+			t.stats["selfdestruct_again"]++
+			if t.e.db.GetBalance(self).Sign() > 0 {
+				t.stats["selfdestruct_again_with_balance"]++
+			}
+		}
 		if ben == self {
 			f.burnt.Add(f.burnt, t.e.db.GetBalance(self))
 			t.stats["selfdestruct_to_self"]++
@@ -939,6 +947,8 @@ func addrCoq(a *Addr) string {
 	switch a.K {
 	case "b":
 		return fmt.Sprintf("(Base %d)", a.N)
+	case "p": // any injective name will do: the model never calls it
+		return fmt.Sprintf("(Base %d)", 1000000+a.N)
 	case "c":
 		return fmt.Sprintf("(Cr %s %d)", addrCoq(a.S), a.Nonce)
 	default:
@@ -1491,6 +1501,91 @@ func createCase(r *vf.Rng) *Case {
 	return c
 }
 
+// suicideCase: the same contracts SELFDESTRUCT several times within one transaction,
+// with value arriving in between (CALL with value - the code of a destructed
+// contract still runs until the end of the transaction - or as the beneficiary of
+// another SELFDESTRUCT); beneficiaries: another account, the contract itself, a
+// precompile, a new address, another victim, the caller; some of the frames are
+// reverted by a relay.
+func suicideCase(r *vf.Rng) *Case {
+	g := &gen{r: r, c: &Case{}, cp: &compiler{codes: map[int]*Code{}}, nextId: 1}
+	c := g.c
+	origin := Addr{K: "b", N: 0}
+	c.Origin = origin
+	main := Addr{K: "b", N: 1}
+	relay := Addr{K: "b", N: 9}
+	funded := Addr{K: "b", N: 20}
+	fresh := Addr{K: "b", N: 21}
+	nv := 1 + r.Intn(3)
+	victim := func(i int) Addr { return Addr{K: "b", N: uint64(2 + i)} }
+	c.Accts = append(c.Accts, Acct{A: origin, Nonce: 1, Bal: "1000000000000000000"})
+	for i := 0; i < nv; i++ {
+		self := victim(i)
+		var ben Addr
+		switch r.Intn(8) {
+		case 0, 1:
+			ben = funded
+		case 2:
+			ben = self
+		case 3:
+			ben = Addr{K: "p", N: uint64([]int{1, 3, 4}[r.Intn(3)])}
+		case 4:
+			ben = fresh
+		case 5, 6:
+			ben = victim(r.Intn(nv))
+		case 7:
+			ben = main
+		}
+		var acts []Act
+		if r.Chance(30) {
+			acts = append(acts, Act{Op: "sstore", K: "0", V: g.pickBig([]string{"0", "4"})})
+		}
+		if r.Chance(20) {
+			acts = append(acts, Act{Op: "log", Topics: []string{fmt.Sprintf("%d", i)}, Dlen: 0})
+		}
+		acts = append(acts, Act{Op: "selfdestruct", Ben: &ben})
+		if i > 0 && r.Chance(30) {
+			acts = append([]Act{{Op: "nop", N: i}}, acts...)
+		}
+		c.Accts = append(c.Accts, Acct{A: self, Nonce: 1, Bal: g.pickBig([]string{"0", "10", "10", "5"}), Code: g.addCode(acts, 0), Stor: g.storage()})
+	}
+	// the relay forwards value to a victim and then ends in a random way
+	rv := victim(r.Intn(nv))
+	racts := []Act{{Op: "call", Kind: 0, Gas: "100000000", To: &rv, V: g.pickBig([]string{"5", "1", "0"})}}
+	if r.Chance(40) {
+		racts = append(racts, Act{Op: "sstore", K: "1", V: "1"})
+	}
+	racts = append(racts, Act{Op: []string{"revert", "invalid", "stop", "stop"}[r.Intn(4)]})
+	c.Accts = append(c.Accts, Acct{A: relay, Nonce: 1, Bal: "50", Code: g.addCode(racts, 0)})
+	var acts []Act
+	steps := 3 + r.Intn(5)
+	for j := 0; j < steps; j++ {
+		switch x := r.Intn(100); {
+		case x < 70:
+			v := victim(r.Intn(nv))
+			a := Act{Op: "call", Kind: 0, Gas: g.pickBig([]string{"100000000", "100000000", "40000", "0"}), To: &v, V: g.pickBig([]string{"0", "7", "7", "1", "3"}), Req: r.Chance(8)}
+			if r.Chance(8) {
+				a.Kind = 1 + r.Intn(3)
+			}
+			acts = append(acts, a)
+		case x < 90:
+			acts = append(acts, Act{Op: "call", Kind: 0, Gas: "100000000", To: &relay, V: g.pickBig([]string{"0", "2"}), Req: r.Chance(8)})
+		default:
+			acts = append(acts, Act{Op: "sstore", K: "2", V: fmt.Sprintf("%d", j)})
+		}
+	}
+	if r.Chance(15) {
+		acts = append(acts, Act{Op: []string{"revert", "invalid"}[r.Intn(2)]})
+	}
+	c.Accts = append(c.Accts, Acct{A: main, Nonce: 1, Bal: "100", Code: g.addCode(acts, 0)})
+	c.Accts = append(c.Accts, Acct{A: funded, Nonce: 0, Bal: "5", Code: 0})
+	c.To = main
+	c.Value = g.pickBig([]string{"0", "4"})
+	c.Gas = 10000000
+	c.Comment = "suicide"
+	return c
+}
+
 // deepCase: a contract that calls itself until the depth limit (1024) stops it.
 func deepCase(r *vf.Rng) *Case {
 	c := &Case{Origin: Addr{K: "b", N: 0}, To: Addr{K: "b", N: 1}, Value: "0", Gas: 1 << 62, Comment: "deep recursion"}
@@ -1622,12 +1717,14 @@ func genCmd(seed uint64, n int, outDir, corpusDir string) {
 				}
 			}()
 			switch x := r.Intn(100); {
-			case x < 40:
+			case x < 34:
 				c = chainCase(r)
-			case x < 52:
+			case x < 45:
 				c = staticCase(r)
-			case x < 64:
+			case x < 56:
 				c = createCase(r)
+			case x < 66:
+				c = suicideCase(r)
 			default:
 				c = newCase(r)
 			}
@@ -1676,7 +1773,7 @@ func genCmd(seed uint64, n int, outDir, corpusDir string) {
 	vf.WriteFile(filepath.Join(outDir, "Cases.v"), sb.String())
 	res.Cases = count
 	res.Distinct = len(distinct)
-	res.Rule = "random multi-contract programs (2-5 contracts + library of runtime/init codes, actions SSTORE/LOG/CALL/CALLCODE/DELEGATECALL/STATICCALL/CREATE/CREATE2/SELFDESTRUCT/REVERT/INVALID, call targets incl. missing, funded and CREATE/CREATE2-derived addresses, boundary gas arguments and values), compiled to byte code and run by the real EVM on a committed StateDB; gas allotment = plenty, or uniform below the gas used with plenty (out-of-gas at a random point), or a boundary; one self-recursive case to the depth limit per shard; a case = program + transaction + observed status, gas left, all accounts, logs, refund, burnt value; non-trivial = executed at least one call/create opcode; distinct by full case text"
+	res.Rule = "random multi-contract programs (2-5 contracts + library of runtime/init codes, actions SSTORE/LOG/CALL/CALLCODE/DELEGATECALL/STATICCALL/CREATE/CREATE2/SELFDESTRUCT/REVERT/INVALID, call targets incl. missing, funded and CREATE/CREATE2-derived addresses, boundary gas arguments and values), compiled to byte code and run by the real EVM on a committed StateDB; gas allotment = plenty, or uniform below the gas used with plenty (out-of-gas at a random point), or a boundary; scenario families: call chains, static-context offenders, CREATE endings, repeated SELFDESTRUCT of the same contract with value arriving in between; one self-recursive case to the depth limit per shard; a case = program + transaction + observed status, gas left, all accounts, logs, refund, burnt value; non-trivial = executed at least one call/create opcode; distinct by full case text"
 	res.Write(filepath.Join(outDir, "result.json"))
 }
 
